@@ -52,9 +52,9 @@ Lemma strload_bin : forall k s, is_bin k = true -> encodable s = true ->
 Proof.
   intros k s Hk He. unfold strload, strload_gen.
   assert (Hn : normalise k = CBytes) by (destruct k; try reflexivity; discriminate Hk).
-  rewrite Hn. cbn [normalise hash_check bind]. unfold strload_body. cbn [json_loads].
+  rewrite Hn. cbn [normalise hash_check bind strload_body]. unfold strload_body_dec.
   unfold decode_text. cbn [tobytes].
-  rewrite (json_bin_str rt L _ s (utf8_rt rt L s He)), (utf8_rt rt L s He). reflexivity.
+  rewrite (utf8_rt rt L s He). reflexivity.
 Qed.
 
 Lemma load_carrier : forall k s, encodable s = true ->
@@ -66,8 +66,8 @@ Qed.
 
 Lemma strload_json_str : forall f s r, json_loads_str rt s = Ok r -> strload_gen rt f CStr s = Ok r.
 Proof.
-  intros f s r H. unfold strload_gen. destruct f; cbn [normalise hash_check bind];
-    unfold strload_body; cbn [json_loads]; rewrite H; reflexivity.
+  intros f s r H. unfold strload_gen. destruct f; cbn [normalise hash_check bind strload_body];
+    unfold strload_body_dec, strload_body_raw, decode_text; cbn [tobytes bind json_loads]; rewrite H; reflexivity.
 Qed.
 
 Lemma load_json : forall k s r, encodable s = true -> json_loads_str rt s = Ok r ->
@@ -81,21 +81,30 @@ Proof.
       | rewrite strload_bin; [exact (strload_json_str true s r H) | reflexivity | exact He] .. ].
 Qed.
 
-(* bytes-like input, any content (valid UTF-8 or not) *)
-Lemma strload_json_bin : forall k b r, is_bin k = true -> json_loads_bin rt b = Ok r ->
+(* bytes-like input of any content: what the decoder returns for the text the bytes decode to;
+   bytes that are not UTF-8 raise the codec's error whatever a decoder would make of them *)
+Lemma strload_json_bin : forall k b s r, is_bin k = true -> utf8_decode rt b = Ok s -> json_loads_str rt s = Ok r ->
   strload rt k b = Ok r.
 Proof.
-  intros k b r Hk H. unfold strload, strload_gen.
+  intros k b s r Hk Hd H. unfold strload, strload_gen.
   assert (Hn : normalise k = CBytes) by (destruct k; try reflexivity; discriminate Hk).
-  rewrite Hn. cbn [hash_check bind]. unfold strload_body. cbn [json_loads]. rewrite H. reflexivity.
+  rewrite Hn. cbn [hash_check bind strload_body]. unfold strload_body_dec, decode_text. cbn [tobytes].
+  rewrite Hd. cbn [bind]. rewrite H. reflexivity.
+Qed.
+Lemma strload_undecodable : forall k b e, is_bin k = true -> utf8_decode rt b = Raise e -> strload rt k b = Raise e.
+Proof.
+  intros k b e Hk Hd. unfold strload, strload_gen.
+  assert (Hn : normalise k = CBytes) by (destruct k; try reflexivity; discriminate Hk).
+  rewrite Hn. cbn [hash_check bind strload_body]. unfold strload_body_dec, decode_text. cbn [tobytes].
+  rewrite Hd. reflexivity.
 Qed.
 
 Lemma load_plain_str : forall s e1 e2,
   json_loads_str rt s = Raise e1 -> literal_eval rt s = Raise e2 -> load rt (PStr s) = Ok (PStr s).
 Proof.
-  intros s e1 e2 H1 H2. unfold load, load_gen, strload_gen. cbn [normalise hash_check bind].
-  unfold strload_body. cbn [json_loads]. rewrite H1.
-  rewrite (json_errors_value rt L s e1 H1). unfold decode_text. cbn [tobytes bind].
+  intros s e1 e2 H1 H2. unfold load, load_gen, strload_gen. cbn [normalise hash_check bind strload_body].
+  unfold strload_body_dec, decode_text. cbn [tobytes bind]. rewrite H1.
+  rewrite (json_errors_value rt L s e1 H1). unfold literal_step.
   rewrite H2. rewrite (literal_errors_doc rt L s e2 H2). reflexivity.
 Qed.
 
@@ -109,10 +118,10 @@ Lemma load_literal_str : forall t m,
   (forall r, json_loads_str rt t = Ok r -> r = m) -> literal_eval rt t = Ok m ->
   load rt (PStr t) = Ok m.
 Proof.
-  intros t m Hj Hl. unfold load, load_gen, strload_gen. cbn [normalise hash_check bind].
-  unfold strload_body. cbn [json_loads]. destruct (json_loads_str rt t) as [r|e] eqn:E.
+  intros t m Hj Hl. unfold load, load_gen, strload_gen. cbn [normalise hash_check bind strload_body].
+  unfold strload_body_dec, decode_text. cbn [tobytes bind]. destruct (json_loads_str rt t) as [r|e] eqn:E.
   - rewrite (Hj r eq_refl). reflexivity.
-  - rewrite (json_errors_value rt L t e E). unfold decode_text. cbn [tobytes bind]. rewrite Hl. reflexivity.
+  - rewrite (json_errors_value rt L t e E). unfold literal_step. rewrite Hl. reflexivity.
 Qed.
 
 (* ------------------------------------------------------------ routine heads *)
@@ -261,7 +270,6 @@ Lemma toy_laws : RuntimeLaws toy_rt.
 Proof.
   constructor.
   - intros s _. reflexivity.
-  - intros b s H. cbn in H. injection H as H. subst b. reflexivity.
   - intros s e H. cbn in H. rewrite (toy_json_errors s e H). reflexivity.
   - intros s e H. cbn in H. injection H as H. subst e. reflexivity.
 Qed.
